@@ -59,6 +59,8 @@ def run_program(args):
     from betterproto.casing import safe_snake_case
     r = protoc.generate(work, name, protos)
     events = []
+    if protoc.front_end_rejected(r):
+        return []                  # not a valid schema (generator noise): nothing to call
     if r["rc"] != 0:
         return [{"imp": "plugin failed: " + r["err"][-200:], "call": _nocall(), "rec": _norec(), "case": {"protos": protos}}]
     prog = protoc.descriptor_program(r["dset"])
